@@ -166,6 +166,15 @@ def alphabet(seed_):
     render('png_both_none_finder', 'png', dark=None, light=None, finder_dark='#00f')
     render('svg_dark_none', 'svg', dark=None, light='yellow')
     add('refused_overflow', 'make', 'x' * 30, version=1, error='H')
+    # calls that fail must fail again (a failing call must not leave a half-built entry in a table of the library)
+    add('refused_eci_koi8', 'make', '\u041f\u0440\u0438\u0432\u0435\u0442', eci=True, encoding='koi8-r')
+    add('refused_eci_utf16', 'make', 'abc', eci=True, encoding='utf-16', micro=False)
+    add('refused_eci_cp850', 'make', '\xe4\xf6', eci=True, encoding='cp850')
+    add('ok_eci_koi8_off', 'make', '\u041f\u0440\u0438\u0432\u0435\u0442', encoding='koi8-r')
+    add('refused_version', 'make', 'abc', version=41)
+    add('refused_mask', 'make', 'abc', mask=8, micro=False)
+    add('refused_kanji', 'make', 'abc', mode='kanji')
+    add('refused_hanzi_seq', 'make_sequence', 'abc', mode='hanzi', symbol_count=2)
     add('refused_mode', 'make', 'abc', mode='numeric')
     return A
 
